@@ -5,10 +5,10 @@ CONSTANTS
   MaxParts = 1
   Brokers = {"r1", "r2", "r3"}
   ConsumerSet = {"c1", "c2"}
-  Coords = {"A", "X"}
-  OpKinds = {"CreateStream", "DeleteStream", "CreateGroup", "JoinGroup", "LeaveGroup", "ChangeCoordinator"}
-  Variants = {"plain", "custom"}
-  MaxOps = 4
+  Coords = {"A"}
+  OpKinds = {"CreateStream", "DeleteStream", "CreateGroup", "JoinGroup", "LeaveGroup"}
+  Variants = {"plain"}
+  MaxOps = 6
   MaxSnaps = 1
   MaxRestarts = 1
 INVARIANTS NoTombLive NoRecLive GroupsValid GroupsFine EpochsFine FlagsConsistent
